@@ -223,7 +223,7 @@ Module HistWitness.
   (* call 2: nodes 2 and 3 are no longer observers of lane 5 (F_home is still 1) *)
   Definition cfg2 : config :=
     mkConfig [mkHomeNode 1 [5] 21; mkHomeNode 2 [] 22; mkHomeNode 3 [] 23]%N [(5%N, 1%Z)]
-             1 7 true 3 [mkLaneReq 5 35 10 20]%N
+             1 7 true 3 [mkLaneReq 5 w_onr32 10 20]%N
              [mkSigner 1 11; mkSigner 2 12; mkSigner 3 13]%N 1%Z false false.
   Definition gid (k : nat) : reqid := N.of_nat (S k).
   (* the second call sees the very same answers again (now late answers to the first call) *)
@@ -232,7 +232,7 @@ Module HistWitness.
   Example two_calls_results :
     exists log,
       hresults (hrun edv vrs fixed gid (flatten two_calls)) =
-      [(0%nat, GFinal (Success [1101; 1201]%N [(mkLaneReq 5 35 10 20, 105)]%N) log);
+      [(0%nat, GFinal (Success [1101; 1201]%N [(mkLaneReq 5 w_onr32 10 20, 105)]%N) log);
        (4%nat, GFinal (Failure FNothingToDo) [])].
   Proof. eexists. vm_compute. reflexivity. Qed.
 
@@ -242,7 +242,7 @@ Module HistWitness.
   Example replayed_second_call_waits :
     exists log us s,
       hresults (hrun edv vrs fixed gid (flatten replayed)) =
-      [(0%nat, GFinal (Success [1101; 1201]%N [(mkLaneReq 5 35 10 20, 105)]%N) log); (4%nat, GA us s)] /\
+      [(0%nat, GFinal (Success [1101; 1201]%N [(mkLaneReq 5 w_onr32 10 20, 105)]%N) log); (4%nat, GA us s)] /\
       a_acc s = [] /\ filter (not_leftover gid 4) good_run = [].
   Proof. do 3 eexists. split; [vm_compute; reflexivity|split; vm_compute; reflexivity]. Qed.
 
